@@ -22,14 +22,20 @@ Horner(c, x, i, acc) == IF i = 0 THEN acc ELSE Horner(c, x, i - 1, TLCEval(FAdd(
 Eval(c, x) == Horner(c, x, Len(c), Zero8)
 NInv(d) == FPowN(HalfW, d)
 WInv(d) == FPowN(Wr(d), Pow2(d) - 1)
-DftT == TLCEval([d \in 0..MaxD |-> TLCEval([k \in 1..Pow2(d) |-> Eval(Xv(d), FPowN(Wr(d), k - 1))])])
-IdftT == TLCEval([d \in 0..MaxD |-> TLCEval([k \in 1..Pow2(d) |-> FMul(NInv(d), Eval(Xv(d), FPowN(WInv(d), k - 1)))])])
+(* evaluation points as tables of VALUES (an operator argument is re-evaluated at every use inside a recursion) *)
+XvT == TLCEval([d \in 0..MaxD |-> Xv(d)])
+FwdPts == TLCEval([d \in 0..MaxD |-> TLCEval([k \in 1..Pow2(d) |-> FPowN(Wr(d), k - 1)])])
+InvPts == TLCEval([d \in 0..MaxD |-> TLCEval([k \in 1..Pow2(d) |-> FPowN(WInv(d), k - 1)])])
+NInvT == TLCEval([d \in 0..MaxD |-> NInv(d)])
+DftT == TLCEval([d \in 0..MaxD |-> TLCEval([k \in 1..Pow2(d) |-> Eval(XvT[d], FwdPts[d][k])])])
+IdftT == TLCEval([d \in 0..MaxD |-> TLCEval([k \in 1..Pow2(d) |-> FMul(NInvT[d], Eval(XvT[d], InvPts[d][k]))])])
+LdePts == TLCEval([d \in 0..MaxD |-> TLCEval([x \in 0..(MaxD - d) |-> TLCEval([k \in 1..Pow2(d + x) |-> FMul(Seven, FwdPts[d + x][k])])])])
 LdeT == TLCEval([d \in 0..MaxD |-> TLCEval([x \in 0..(MaxD - d) |->
-            TLCEval([k \in 1..Pow2(d + x) |-> Eval(IdftT[d], FMul(Seven, FPowN(Wr(d + x), k - 1)))])])])
+            TLCEval([k \in 1..Pow2(d + x) |-> Eval(IdftT[d], LdePts[d][x][k])])])])
 (* sanity of the root table taken from the tree: W[0] = 1, W[1] = -1, W[k]^2 = W[k-1] *)
 ASSUME Wr(0) = One8 /\ Wr(1) = PM1 /\ \A k \in 1..32 : FMul(Wr(k), Wr(k)) = Canon(Wr(k - 1))
 (* the two definitions are mutually inverse on the tables themselves (round trip) *)
-ASSUME \A d \in 0..MaxD : \A k \in 1..Pow2(d) : FMul(NInv(d), Eval(DftT[d], FPowN(WInv(d), k - 1))) = Canon(Xv(d)[k])
+ASSUME \A d \in 0..MaxD : \A k \in 1..Pow2(d) : FMul(NInvT[d], Eval(DftT[d], InvPts[d][k])) = Canon(XvT[d][k])
 Table(e) == IF e.call = "ntt" THEN DftT[e.d] ELSE IF e.call = "intt" THEN IdftT[e.d] ELSE LdeT[e.d][e.x]
 Rows(e) == IF e.call = "ext" THEN Pow2(e.d + e.x) ELSE Pow2(e.d)
 OutOk(e, out) ==
